@@ -77,7 +77,7 @@ def fs_obligations(mode, tier, sc):
            # for symex, so fault kind and stdio buffering policy are enumerated (2 x 2 obligations per slot)
            # and the byte counts are fixed; the fully symbolic version of the copy itself is the unit
            # obligation fault_move_unit_{obs,json}.
-           variants = [["GFS_FAULT_KIND=%d" % fk, "GFS_DRAIN_POLICY=%d" % dp, "GFS_SHORT_LEN=1"] for fk in (0, 1) for dp in (0, 1)]
+           variants = [["GFS_FAULT_KIND=%d" % fk, "GFS_DRAIN_POLICY=%d" % dp, "GFS_SHORT_LEN=1"] for fk in (0, 1, 2) for dp in (0, 1)]
        for var in variants:
         vname = "".join("_" + v.split("_")[1][0].lower() + v[-1] for v in var if v.startswith(("GFS_FAULT_KIND", "GFS_DRAIN_POLICY")))
         obs.append(Obligation(
@@ -89,7 +89,7 @@ def fs_obligations(mode, tier, sc):
             extra=["--object-bits", "10"],
             timeout=600, mem_gb=16,
             desc=dict(functions=FUNCS,
-                      symbolic="(K = index of the system-call slot that is hit is ENUMERATED by the driver: one obligation per slot, %d slots counted by a native dry run of the real code) fault kind (error / short transfer, short length), " % nslots +
+                      symbolic="(K = index of the system-call slot that is hit is ENUMERATED by the driver: one obligation per slot, %d slots counted by a native dry run of the real code) fault kind (error with the call's typical errno / error with EINTR / short transfer, short length), " % nslots +
                                "directory enumeration order (one obligation per order), which fwrite/fputs drain the stdio buffer, short-write splits of the stream, "
                                "buffered byte counts n1 in [700,800), n2 in [400,500) (windows that fix the number of 1 KiB chunks copied), whether ovni_attr_flush is called",
                       bound="one process, one thread, loom 'l', pid 1, tid 1, OVNI_TRACEDIR unset, OVNI_TMPDIR %s; run = proc_init, thread_init, flush, [attr_flush], flush, thread_free, proc_fini; "
@@ -119,7 +119,7 @@ def move_unit_obligations(mode, tier, sc):
             native_srcs=["src/parson.c"], native_cflags=["-Wl,--allow-multiple-definition"],
             extra=["--object-bits", "10"], timeout=600, mem_gb=16,
             desc=dict(functions=["move_thread_to_final"],
-                      symbolic="index K of the system call that is hit inside the move (kill point or failing call), fault kind (error / short transfer, short length), "
+                      symbolic="index K of the system call that is hit inside the move (kill point or failing call), fault kind (error with the call's typical errno / error with EINTR / short transfer, short length), "
                                "which fwrite drains the stdio buffer, source length 8..2500 bytes (stream.obs) / finished flag (stream.json)",
                       bound="one file moved from the temporary to the final thread directory; <=3 chunks of 1 KiB; single event",
                       out="the loop of move_thdir_to_final around it (full-run obligations)",
